@@ -26,7 +26,10 @@ fn cfg_for(config: &str) -> GenCfg {
     "td-checkerr" => { c.check_errors = true; }
     "bu-checkerr" => { c.check_errors = true; c.bottom_up = 70; c.all_roots_td = true; }
     "td-crash" => { c.crash = true; }
-    "bu-crash" => { c.crash = true; c.bottom_up = 50; c.td_between = true; }
+    "td-replay" => { c.replays = 4; }
+    "bu-replay" => { c.replays = 4; c.bottom_up = 60; c.all_roots_td = true; }
+    "bu-mixed-replay" => { c.replays = 4; c.bottom_up = 50; c.td_between = true; }
+    "bu-crash" => { c.crash = true; c.bottom_up = 50; c.all_roots_td = true; }
     _ => {}
   }
   c
@@ -55,6 +58,23 @@ impl Engine for BuildEngine {
     runner.run();
     let mut out = runner.outcome();
     out.fingerprint = fingerprint(scn);
+    if std::env::var("VERIF_DEBUG_LOG").is_ok() {
+      for (i, l) in log_lines().iter().enumerate() { if !l.starts_with("Trk(") || std::env::var("VERIF_DEBUG_LOG").as_deref() == Ok("2") { eprintln!("{i:4} {l}"); } }
+    }
+    if scn.replays > 0 && out.harness_error.is_none() {
+      let base = log_lines();
+      let base_digest = digest(&base);
+      for variant in 1..=scn.replays.min(4) {
+        let lines = replay_variant(scn, prop, variant);
+        out.stats.hit(&format!("replay_variant_{variant}"));
+        if digest(&lines) != base_digest {
+          let pos = base.iter().zip(lines.iter()).position(|(a, b)| a != b).unwrap_or(base.len().min(lines.len()));
+          let what = ["", "with another hash seed", "after unrelated instances were built and dropped", "in a fresh thread", "with OS-random hash seeds"][variant as usize];
+          out.violations.push(crate::common::Violation::new(&["C16"], "replay-diverged", 0, format!("replaying the history {what} diverged at event {pos}: {:?} vs {:?} (lengths {} and {})", base.get(pos), lines.get(pos), base.len(), lines.len())));
+          break;
+        }
+      }
+    }
     out
   }
 
@@ -109,4 +129,44 @@ impl Engine for BuildEngine {
       "reference_model": "from-scratch interpreter (Clean) + ledger of latest executions derived from task-side and checker-side logs",
     })
   }
+}
+
+fn log_lines() -> Vec<String> { world::with_sim(|s| s.log.iter().map(|e| format!("{:?}", e)).collect()) }
+
+fn digest(lines: &[String]) -> u64 {
+  let mut h = 0xcbf2_9ce4_8422_2325u64;
+  for l in lines { for b in l.bytes() { fnv(&mut h, b as u64); } fnv(&mut h, 0xFFFF); }
+  h
+}
+
+/// Replays `scn` under a perturbation that must not matter, returning the complete event log.
+fn replay_variant(scn: &Scenario, prop: &str, variant: u8) -> Vec<String> {
+  let mut s2 = scn.clone();
+  s2.replays = 0;
+  match variant {
+    1 => { s2.hash_seed = Some(scn.hash_seed.unwrap_or(0) ^ 0x5DEECE66D_u64.wrapping_mul(variant as u64 + 1) ^ 0xA5A5_0000_1111); }
+    2 => {
+      // Unrelated instances first (same thread, so allocator state and per-thread hash counters have moved).
+      let mut rng = Rng::new(scn.hash_seed.unwrap_or(7) ^ 0xDEAD_BEEF);
+      for _ in 0..2 {
+        let cfg = GenCfg::default();
+        let program = gen_program_w(&mut rng, &cfg);
+        let (init, steps, faults) = gen_history(&mut rng, &program, &cfg);
+        let other = Scenario { hash_seed: Some(rng.next()), program, init, steps, faults, replays: 0 };
+        let mut r = run::Runner::new(&other, prop);
+        r.run();
+      }
+      s2.hash_seed = Some(scn.hash_seed.unwrap_or(0).rotate_left(17) ^ 0x1234_5678);
+    }
+    3 => {
+      let s3 = s2.clone();
+      let prop = prop.to_string();
+      return std::thread::spawn(move || { let mut r = run::Runner::new(&s3, &prop); r.run(); drop(r); log_lines() }).join().unwrap_or_default();
+    }
+    _ => { s2.hash_seed = None; }
+  }
+  let mut r = run::Runner::new(&s2, prop);
+  r.run();
+  drop(r);
+  log_lines()
 }
